@@ -1,6 +1,8 @@
 package core
 
 import (
+	"sort"
+
 	schema "github.com/jsightapi/jsight-schema-core"
 	"github.com/jsightapi/jsight-schema-core/bytes"
 	"github.com/jsightapi/jsight-schema-core/notations/jschema"
@@ -35,8 +37,16 @@ func newPathVariablesSchema(
 		return nil, err
 	}
 
-	for k, v := range userTypes {
-		if err = s.AddType(k, v); err != nil { //nolint:gocritic
+	// In the order of the names: adding a type can fail (a name the schema
+	// library does not accept, a type that does not load), and which failure is
+	// reported must not depend on the iteration order of the map.
+	names := make([]string, 0, len(userTypes))
+	for k := range userTypes {
+		names = append(names, k)
+	}
+	sort.Strings(names)
+	for _, k := range names {
+		if err = s.AddType(k, userTypes[k]); err != nil { //nolint:gocritic
 			return nil, err
 		}
 	}
